@@ -24,10 +24,10 @@ func (c19) ID() string     { return "C19" }
 func (c19) Level() string  { return "exploration" }
 func (c19) QuickRuns() int { return 240000 }
 func (c19) Rule() string {
-	return "traceroute.RunTraceroute and the HTTP handler with boundary parameters: TTL bounds from {-1,0,1,2,29,30,254..258,300,511,65536+k} (min and max independently), ports {-1,0,1,65535,65536,70000}, protocol and TCP-method strings (valid, case variants, unknown, empty), target literals (IPv4, IPv6, bracketed, with and without port), every protocol; either the call fails, or the wire shows exactly the requested TTL range towards exactly the requested address/port with the requested probe kind; non-trivial = at least one parameter is at or beyond a boundary; distinct = distinct parameter tuples"
+	return "traceroute.RunTraceroute and the HTTP handler with boundary parameters: TTL bounds from {-1,0,1,2,29,30,254..258,300,511,65536+k} (min and max independently), ports {-1,0,1,65535,65536,70000}, protocol and TCP-method strings (valid, case variants, unknown, empty), target literals (IPv4, IPv6 incl. look-alikes of mapped addresses, bracketed, with and without port, the literal's port drawn from {1, 8443, 65535, 0, 00, 65536, 70000, -1, empty, non-numeric, > 2^32}), every protocol; either the call fails, or the wire shows exactly the requested TTL range towards exactly the requested address/port with the requested probe kind; non-trivial = at least one parameter is at or beyond a boundary; distinct = distinct parameter tuples"
 }
 func (c19) Assumptions() []string {
-	return []string{"case variants of protocol/method strings and the Windows-only syn_socket method may be rejected or executed (don't-care)", "when the target literal carries its own port the separate port parameter is left at 0", "for ICMP the port value is don't-care (nothing on the wire carries it)"}
+	return []string{"case variants of protocol/method strings and the Windows-only syn_socket method may be rejected or executed (don't-care)", "when the target literal carries its own port the separate port parameter is left at 0", "for ICMP the port value is don't-care (nothing on the wire carries it)", "a target literal with port 0 or an empty port may be rejected or mean the default port; it must never put port 0 on the wire"}
 }
 
 var ttlBoundary = []int{-1, 0, 1, 2, 29, 30, 254, 255, 256, 257, 258, 300, 511, 65536, 65537, 65566}
